@@ -5,7 +5,7 @@ import sys
 import time
 
 VERIF = os.path.abspath(os.path.join(os.path.dirname(__file__), '..', '..', '..'))
-EVID = os.path.join(VERIF, 'evidence')
+EVID = os.environ.get('TSA_EVIDENCE_DIR') or os.path.join(VERIF, 'evidence')
 KNOWN = os.path.join(VERIF, 'known_findings.json')
 
 
